@@ -164,6 +164,8 @@ fn inst_strategy() -> BS<Inst> {
         (2, (days_1900(1972, 1, 1) as i128 * NS_D..days_1900(2030, 1, 1) as i128 * NS_D).boxed()),
         (1, (days_1900(1958, 1, 1) as i128 * NS_D..days_1900(1972, 1, 2) as i128 * NS_D).boxed()),
         (2, tai_count_any()),
+        // within +-40 s of a century boundary of the count (where the century field rolls over), either axis
+        (2, (-20i128..=81, near_offset()).prop_map(|(k, off)| k * NPC + off).boxed()),
         (1, (days_1900(2017, 1, 1) as i128 * NS_D..days_1900(9999, 12, 31) as i128 * NS_D).boxed()),
         (1, (days_1900(-30_000, 1, 1) as i128 * NS_D..days_1900(1900, 1, 1) as i128 * NS_D).boxed()),
     ]);
@@ -184,6 +186,9 @@ fn lib_utc_to_tai(u: i128) -> Result<i128, String> {
         if d1.to_parts() != r.duration.to_parts() || d2.to_parts() != r.duration.to_parts() {
             return Err("to_tai_duration / to_duration_in_time_scale disagree with to_time_scale".into());
         }
+        if !canonical(r.duration) {
+            return Err(format!("UTC->TAI result {:?} is not in canonical form", r.duration.to_parts()));
+        }
         Ok(count(r.duration))
     })
 }
@@ -200,6 +205,9 @@ fn lib_tai_to_utc(t: i128) -> Result<i128, String> {
         }
         if d1.to_parts() != r.duration.to_parts() {
             return Err("to_utc_duration disagrees with to_time_scale".into());
+        }
+        if !canonical(r.duration) {
+            return Err(format!("TAI->UTC result {:?} is not in canonical form", r.duration.to_parts()));
         }
         Ok(count(r.duration))
     })
@@ -241,6 +249,12 @@ fn inst_oracle(c: &Inst) -> Verdict {
                 let e = Epoch::from_duration(mk(t - zero_tai_ns(c.via)), SCALES[c.via]);
                 let v = lib!(e.to_time_scale(TimeScale::UTC));
                 ensure!(count(v.duration) == u, "{} (TAI {}) -> UTC: got {}, want {}", SCALE_NAMES[c.via], t, count(v.duration), u);
+                // the Duration-valued UTC views are the same UTC count shifted by constants
+                let jde = lib!(e.to_jde_utc_duration());
+                ensure!(count(jde) == u + 2_415_020 * NS_D + NS_D / 2, "to_jde_utc_duration of {} (TAI {}) = {}, want UTC count + 2 415 020.5 d = {}", SCALE_NAMES[c.via], t, count(jde), u + 2_415_020 * NS_D + NS_D / 2);
+                let unix = lib!(e.to_unix(hifitime::Unit::Second));
+                let want_unix = (u - 2_208_988_800 * NS_S) as f64 / 1e9;
+                ensure!((unix - want_unix).abs() <= 4.0 * ulp(want_unix.abs().max(1.0)) + 1e-9, "to_unix(Second) of {} (TAI {}) = {}, want {}", SCALE_NAMES[c.via], t, unix, want_unix);
             }
             TaiToUtc::InsideLeap { ts_ns, step_ns } => {
                 ensure!(got >= ts_ns - step_ns && got < ts_ns + step_ns, "TAI {} (inside the second inserted before UTC {}) -> UTC {}: outside [ts - step, ts + step)", t, ts_ns, got);
